@@ -1221,7 +1221,15 @@ std::string eval_macro_callback(
     auto res = runtime.evaluate_expression(params[0], success, false);
     return success ? res.data()->to_string_sqf() : "";
 }
-static int __counter__ = 0;
+// __COUNTER__ counts per runtime: instances living in one process must not see each other's count
+namespace
+{
+    class counter_storage : public ::sqf::runtime::runtime::datastorage
+    {
+    public:
+        int value = 0;
+    };
+}
 std::string counter_macro_callback(
     const ::sqf::runtime::parser::macro& m,
     const ::sqf::runtime::diagnostics::diag_info dinf,
@@ -1229,7 +1237,7 @@ std::string counter_macro_callback(
     const std::vector<std::string>& params,
     ::sqf::runtime::runtime& runtime)
 {
-    return std::to_string(__counter__++);
+    return std::to_string(runtime.storage<counter_storage>().value++);
 }
 std::string counter_reset_macro_callback(
     const ::sqf::runtime::parser::macro& m,
@@ -1238,7 +1246,7 @@ std::string counter_reset_macro_callback(
     const std::vector<std::string>& params,
     ::sqf::runtime::runtime& runtime)
 {
-    __counter__ = 0;
+    runtime.storage<counter_storage>().value = 0;
     return "";
 }
 
